@@ -196,7 +196,7 @@ CLAIMED["C12"] = {
             "re-arms itself with the configured interval, indefinitely; decision S1 makes the port Slave with receipt and delay timers, and a "
             "Slave's delay timer emits a (P)delay request and re-arms itself. One genuine finding is recorded (recovery from a peer-delay "
             "fault arms no timer). Model tied by the timed stream (a simulated host obeying the timers) plus liveness oracles on the "
-            "implementation (silence -> Master and cadence; steady best master -> Slave and delay requests).",
+            "implementation (silence -> Master and cadence; steady best master -> Slave and delay requests). The announce receipt timeout handler and set_recommended_port_state are translated from the source on every run and proved equal to the model (C08.generated_receipt_timer_is_model, C05.generated_port_move_is_model); both are obligations of this check too.",
     "note": "Trusted: Lean kernel; generators; simulated time. The bound 'within a bounded number of announce intervals' is argued from the "
             "armed-timer invariant + the durations of the timers (receiptTimeout x interval x [1,2)) + C06's window expiry, and is tested by "
             "the liveness oracle; it is not a single timed theorem.",
@@ -259,7 +259,7 @@ CLAIMED["C14"] = {
             "(classify_false_iff); a Faulty port emits no Announce/Sync/Follow_Up/Delay_Resp, hands no sync/delay measurement to a "
             "filter, is excluded from Ebest, is left alone by every BMCA decision and by the receipt timeout; the next completed "
             "exchange returns it to Listening with a fresh servo. Two genuine defects found by the oracle (Faulty left without a clean "
-            "exchange) were repaired by fix: commits.",
+            "exchange) were repaired by fix: commits. set_recommended_port_state is translated from the source on every run and proved equal to the model (C05.generated_port_move_is_model: no decision code moves a Faulty port); an obligation of this check too.",
     "note": "Trusted: Lean kernel; Spec/Formulas.lean; generators. Provenance of the stored peer timestamps over whole histories is "
             "argued from classify_false_iff + the store definition, and checked by the independent oracle; it is not a single theorem.",
     "technique": "Lean 4 theorems (case analysis, exact integer arithmetic) + differential correspondence + independent oracles",
